@@ -154,7 +154,7 @@ GhostNext(G, S, a, site, inp, S2, o) ==
   LET L == S.lc[a]
       G0 == [G EXCEPT !.lookups = IF site = "C_Get" THEN @ + 1 ELSE @,
                       !.desync = LET base == IF site \in {"W_Recv", "C_Idle", "S_Tick", "R_Recv"} THEN @ \ {a} ELSE @
-                                 IN IF o.sync THEN base ELSE base \cup {a},
+                                 IN IF o.sync /\ o.agree THEN base ELSE base \cup {a},   \* (takes effect for the FOLLOWING steps)
                       !.adm = IF site = "A_Space" /\ a = "worker" THEN [id |-> L.id, w |-> L.w] ELSE @,
                       !.smp = IF \E i \in DOMAIN o.ev : o.ev[i].e \in {"sample", "refill"}
                               THEN LET j == CHOOSE i \in DOMAIN o.ev : o.ev[i].e \in {"sample", "refill"} /\ \A k \in DOMAIN o.ev : o.ev[k].e \in {"sample", "refill"} => i >= k
